@@ -58,10 +58,35 @@ pub fn put_raw(e: &StorageEngine, db: usize, key: &[u8], value: Value, expires_a
     }
 }
 
-/// Observation of one key, bypassing all engine operations.
+/// Observation of one key, bypassing all engine operations.  String contents are copied byte by
+/// byte into a stack buffer: a `Vec::clone` (memcpy with a merged, symbolic length/pointer) after
+/// a conditional write is resolved imprecisely by CBMC and produced a spurious counterexample.
+pub struct SB {
+    n: usize,
+    d: [u8; 8],
+}
+impl SB {
+    pub fn len(&self) -> usize {
+        self.n
+    }
+    pub fn as_i64_abs(&self) -> Option<i64> {
+        if self.n == 8 {
+            Some(i64::from_le_bytes(self.d))
+        } else {
+            None
+        }
+    }
+}
+impl std::ops::Index<usize> for SB {
+    type Output = u8;
+    fn index(&self, i: usize) -> &u8 {
+        assert!(i < self.n && i < 8, "observation index");
+        &self.d[i]
+    }
+}
 pub enum Obs {
     Absent,
-    Str(Vec<u8>),
+    Str(SB),
     Other(u8),
 }
 pub fn peek_str(e: &StorageEngine, db: usize, key: &[u8]) -> Obs {
@@ -70,7 +95,16 @@ pub fn peek_str(e: &StorageEngine, db: usize, key: &[u8]) -> Obs {
     match g.data.get(key) {
         None => Obs::Absent,
         Some(sv) => match &sv.value {
-            Value::String(b) => Obs::Str(b.clone()),
+            Value::String(b) => {
+                assert!(b.len() <= 8, "observation helper handles strings of up to 8 bytes");
+                let mut d = [0u8; 8];
+                let mut i = 0;
+                while i < b.len() && i < 8 {
+                    d[i] = b[i];
+                    i += 1;
+                }
+                Obs::Str(SB { n: b.len(), d })
+            }
             Value::List(_) => Obs::Other(1),
             Value::Set(_) => Obs::Other(2),
             Value::Hash(_) => Obs::Other(3),
@@ -161,24 +195,1157 @@ fn getrange_n<const N: usize>() {
     }
     // read-only: the value is untouched
     match peek_str(&e, 0, b"k") {
-        Obs::Str(b) => assert!(bytes_eq(&b, &v), "GETRANGE must not change the value"),
+        Obs::Str(b) => assert!(b.len() == N && (0..N).all(|i| b[i] == v[i]), "GETRANGE must not change the value"),
         _ => assert!(false, "GETRANGE must not change the key"),
     }
     std::mem::forget(e);
 }
 
-#[kani::proof]
-#[kani::unwind(5)]
-#[kani::stub(std::time::Instant::now, crate::verif_common::now_fixed)]
-#[kani::stub(catch_unwind, cu_stub)]
-fn c01_getrange_len3() {
-    getrange_n::<3>();
+
+macro_rules! eng_harness {
+    ($name:ident, $unwind:expr, $body:block) => {
+        #[kani::proof]
+        #[kani::unwind($unwind)]
+        #[kani::stub(std::time::Instant::now, crate::verif_common::now_manual)]
+        #[kani::stub(catch_unwind, cu_stub)]
+        #[kani::stub(alloc::fmt::format, fmt_stub)]
+        fn $name() $body
+    };
+}
+/// same, with the decimal integer codec of `Value` replaced by an abstract, round-tripping codec
+/// (8 little-endian bytes): std's i64 Display/FromStr on symbolic values does not fit in CBMC and
+/// is trusted; everything around it (checked_add, error classes, key creation) is decided.
+macro_rules! eng_harness_intcodec {
+    ($name:ident, $unwind:expr, $body:block) => {
+        #[kani::proof]
+        #[kani::unwind($unwind)]
+        #[kani::stub(std::time::Instant::now, crate::verif_common::now_manual)]
+        #[kani::stub(catch_unwind, cu_stub)]
+        #[kani::stub(alloc::fmt::format, fmt_stub)]
+        #[kani::stub(crate::storage::value::Value::integer, value_integer_abs)]
+        #[kani::stub(crate::storage::value::Value::as_integer, value_as_integer_abs)]
+        fn $name() $body
+    };
+}
+pub fn value_integer_abs(n: i64) -> Value {
+    Value::String(n.to_le_bytes().to_vec())
+}
+pub fn value_as_integer_abs(v: &Value) -> Option<i64> {
+    match v {
+        Value::String(b) if b.len() == 8 => {
+            Some(i64::from_le_bytes([b[0], b[1], b[2], b[3], b[4], b[5], b[6], b[7]]))
+        }
+        _ => None,
+    }
 }
 
-#[kani::proof]
-#[kani::unwind(5)]
-#[kani::stub(std::time::Instant::now, crate::verif_common::now_fixed)]
-#[kani::stub(catch_unwind, cu_stub)]
-fn c01_getrange_len0() {
-    getrange_n::<0>();
+/// with the exact Vec::new / Vec::push / ptr::copy stubs of verif_common (operations that push a
+/// symbolic number of elements or shift a symbolic number of slots)
+macro_rules! eng_harness_vec {
+    ($name:ident, $unwind:expr, $body:block) => {
+        #[kani::proof]
+        #[kani::unwind($unwind)]
+        #[kani::stub(std::time::Instant::now, crate::verif_common::now_manual)]
+        #[kani::stub(catch_unwind, cu_stub)]
+        #[kani::stub(alloc::fmt::format, fmt_stub)]
+        #[kani::stub(std::vec::Vec::new, vec_new_cap8)]
+        #[kani::stub(std::vec::Vec::push, vec_push_nogrow)]
+        #[kani::stub(std::ptr::copy, ptr_copy_elementwise)]
+        fn $name() $body
+    };
 }
+eng_harness!(c01_getrange_len3, 5, { getrange_n::<3>(); });
+eng_harness!(c01_getrange_len0, 5, { getrange_n::<0>(); });
+
+// ---------------------------------------------------------------- generic one-step environment
+// Key under test KA = "a" (shard 12 of 16), KQ = "q" (same shard), KB = "b" (shard 5).
+// db 0 is the database under test; db 1 holds a sentinel under the SAME key name (C18).
+pub const KA: &[u8] = b"a";
+pub const KQ: &[u8] = b"q";
+pub const KB: &[u8] = b"b";
+pub const SENTINEL: u8 = 0x5a;
+
+#[derive(Clone, Copy, PartialEq)]
+pub enum Pre {
+    Absent,
+    Str2,
+    List1,
+    Set1,
+    Hash1,
+}
+
+pub struct Env {
+    pub e: StorageEngine,
+    pub pre: Pre,
+    /// symbolic content bytes of the pre-state value
+    pub c: [u8; 2],
+    pub base_a: u64,
+    pub base_q: u64,
+    pub base_b: u64,
+    pub two: bool,
+}
+
+pub fn env(pre: Pre) -> Env {
+    env_on(mk_engine1(), pre, false)
+}
+/// two databases, sentinel under the same key in db 1 (C18 harnesses)
+pub fn env2(pre: Pre) -> Env {
+    env_on(mk_engine2(), pre, true)
+}
+pub fn env_on(e: StorageEngine, pre: Pre, two: bool) -> Env {
+    let c: [u8; 2] = kani::any();
+    match pre {
+        Pre::Absent => {}
+        Pre::Str2 => put_raw(&e, 0, KA, Value::String(vec![c[0], c[1]]), None),
+        Pre::List1 => {
+            let mut l = VecDeque::new();
+            l.push_back(vec![c[0]]);
+            put_raw(&e, 0, KA, Value::List(l), None)
+        }
+        Pre::Set1 => {
+            let mut h = HashSet::new();
+            h.insert(vec![c[0]]);
+            put_raw(&e, 0, KA, Value::Set(h), None)
+        }
+        Pre::Hash1 => {
+            let mut h = HashMap::new();
+            h.insert(vec![c[0]], vec![c[1]]);
+            put_raw(&e, 0, KA, Value::Hash(h), None)
+        }
+    }
+    // C18: same key name in another database
+    if two {
+        put_raw(&e, 1, KA, Value::String(vec![SENTINEL]), None);
+    }
+    // C08: the key under test and another key of the same shard are watched
+    let base_a = e.register_watch(0, KA).ok().unwrap();
+    let base_q = e.register_watch(0, KQ).ok().unwrap();
+    Env { e, pre, c, base_a, base_q, base_b: 0, two }
+}
+
+impl Env {
+    /// state of KA equals the pre-state (refused commands change nothing)
+    pub fn unchanged(&self) -> bool {
+        let shard = self.e.get_shard(0, KA).ok().unwrap();
+        let g = shard.read().unwrap();
+        match (self.pre, g.data.get(KA)) {
+            (Pre::Absent, None) => true,
+            (Pre::Str2, Some(sv)) => matches!(&sv.value, Value::String(b) if b.len() == 2 && b[0] == self.c[0] && b[1] == self.c[1])
+                && sv.metadata.expires_at.is_none(),
+            (Pre::List1, Some(sv)) => matches!(&sv.value, Value::List(l) if l.len() == 1 && l[0].len() == 1 && l[0][0] == self.c[0]),
+            (Pre::Set1, Some(sv)) => matches!(&sv.value, Value::Set(h) if h.len() == 1 && h.contains(&vec![self.c[0]])),
+            (Pre::Hash1, Some(sv)) => matches!(&sv.value, Value::Hash(h) if h.len() == 1 && h.get(&vec![self.c[0]]).map_or(false, |v| v.len() == 1 && v[0] == self.c[1])),
+            _ => false,
+        }
+    }
+    /// post-conditions shared by every one-step harness:
+    ///  C08 soundness: if the observable state of KA changed, the watch on KA reports it;
+    ///  C08 precision: watches on other keys (same shard, other shard) never report;
+    ///  C18: the same key in database 1 is untouched.
+    pub fn post(&self, changed: bool) {
+        if changed {
+            assert!(self.e.was_modified_since(0, KA, self.base_a).ok().unwrap(), "C08: a changed watched key must be reported as modified");
+        }
+        assert!(!self.e.was_modified_since(0, KQ, self.base_q).ok().unwrap(), "C08: untouched key in the same shard reported as modified");
+        if self.two {
+            match peek_str(&self.e, 1, KA) {
+                Obs::Str(b) => assert!(b.len() == 1 && b[0] == SENTINEL, "C18: key in another database changed"),
+                _ => assert!(false, "C18: key in another database changed"),
+            }
+            assert!(peek_index(&self.e, 1, KA).is_none());
+        }
+    }
+    pub fn str_now(&self) -> Option<SB> {
+        match peek_str(&self.e, 0, KA) {
+            Obs::Str(b) => Some(b),
+            _ => None,
+        }
+    }
+    pub fn absent_now(&self) -> bool {
+        matches!(peek_str(&self.e, 0, KA), Obs::Absent)
+    }
+    pub fn done(self) {
+        std::mem::forget(self);
+    }
+}
+pub fn is_wrongtype(e: &FerrousError) -> bool {
+    matches!(e, FerrousError::Storage(StorageError::WrongType) | FerrousError::Command(CommandError::WrongType))
+}
+
+// ---------------------------------------------------------------- C01 string / key-space operations
+fn op_append(pre: Pre) {
+    let x = env(pre);
+    let v: u8 = kani::any();
+    let r = x.e.append(0, KA.to_vec(), vec![v]);
+    kani::cover!(true, "append returned");
+    match (pre, &r) {
+        (Pre::Absent, Ok(n)) => {
+            assert!(*n == 1, "APPEND on a missing key returns the length of the new value");
+            let s = x.str_now();
+            assert!(matches!(&s, Some(b) if b.len() == 1 && b[0] == v), "APPEND creates the key with the value");
+            x.post(true);
+        }
+        (Pre::Str2, Ok(n)) => {
+            assert!(*n == 3, "APPEND returns the new length");
+            let s = x.str_now();
+            assert!(matches!(&s, Some(b) if b.len() == 3 && b[0] == x.c[0] && b[1] == x.c[1] && b[2] == v), "APPEND concatenates");
+            x.post(true);
+        }
+        (Pre::Absent, Err(_)) | (Pre::Str2, Err(_)) => assert!(false, "APPEND refused on absent/string key"),
+        (_, Ok(_)) => assert!(false, "APPEND accepted on a non-string key"),
+        (_, Err(er)) => {
+            assert!(is_wrongtype(er), "APPEND on a non-string key must be WRONGTYPE");
+            assert!(x.unchanged(), "refused APPEND changed the dataset");
+            x.post(false);
+        }
+    }
+    std::mem::forget(r);
+    x.done();
+}
+eng_harness!(c01_append_absent, 5, { op_append(Pre::Absent); });
+eng_harness!(c01_append_str, 5, { op_append(Pre::Str2); });
+eng_harness!(c01_append_list, 5, { op_append(Pre::List1); });
+
+fn op_strlen(pre: Pre) {
+    let x = env(pre);
+    let r = x.e.strlen(0, KA);
+    kani::cover!(true, "strlen returned");
+    match (pre, &r) {
+        (Pre::Absent, Ok(n)) => assert!(*n == 0),
+        (Pre::Str2, Ok(n)) => assert!(*n == 2),
+        (Pre::Absent, Err(_)) | (Pre::Str2, Err(_)) => assert!(false, "STRLEN refused"),
+        (_, Ok(_)) => assert!(false, "STRLEN accepted on a non-string key"),
+        (_, Err(er)) => assert!(is_wrongtype(er)),
+    }
+    assert!(x.unchanged(), "STRLEN is read-only");
+    x.post(false);
+    std::mem::forget(r);
+    x.done();
+}
+eng_harness!(c01_strlen_absent, 5, { op_strlen(Pre::Absent); });
+eng_harness!(c01_strlen_str, 5, { op_strlen(Pre::Str2); });
+eng_harness!(c01_strlen_hash, 5, { op_strlen(Pre::Hash1); });
+
+/// SET (engine set_value): overwrites ANY existing value and type, clears the TTL.
+fn op_set(pre: Pre) {
+    let x = env(pre);
+    let v: [u8; 2] = kani::any();
+    let r = x.e.set_string(0, KA.to_vec(), vec![v[0], v[1]]);
+    kani::cover!(true, "set returned");
+    assert!(r.is_ok(), "SET never fails");
+    let s = x.str_now();
+    assert!(matches!(&s, Some(b) if b.len() == 2 && b[0] == v[0] && b[1] == v[1]), "SET stores the value over any previous type");
+    assert!(matches!(peek_deadline(&x.e, 0, KA), Some(None)), "SET without expiry leaves no TTL");
+    x.post(true);
+    std::mem::forget(r);
+    x.done();
+}
+eng_harness!(c01_set_absent, 5, { op_set(Pre::Absent); });
+eng_harness!(c01_set_str, 5, { op_set(Pre::Str2); });
+eng_harness!(c01_set_list, 5, { op_set(Pre::List1); });
+
+fn op_setnx(pre: Pre) {
+    let x = env(pre);
+    let v: u8 = kani::any();
+    let r = x.e.set_string_nx(0, KA.to_vec(), vec![v]);
+    kani::cover!(true, "setnx returned");
+    match (pre, &r) {
+        (Pre::Absent, Ok(true)) => {
+            assert!(matches!(&x.str_now(), Some(b) if b.len() == 1 && b[0] == v));
+            x.post(true);
+        }
+        (Pre::Absent, _) => assert!(false, "SETNX on a missing key must set it"),
+        (_, Ok(false)) => {
+            assert!(x.unchanged(), "SETNX on an existing key (any type) changes nothing");
+            x.post(false);
+        }
+        (_, _) => assert!(false, "SETNX on an existing key must return 0"),
+    }
+    std::mem::forget(r);
+    x.done();
+}
+eng_harness!(c01_setnx_absent, 5, { op_setnx(Pre::Absent); });
+eng_harness!(c01_setnx_str, 5, { op_setnx(Pre::Str2); });
+eng_harness!(c01_setnx_set, 5, { op_setnx(Pre::Set1); });
+
+fn op_delete(pre: Pre) {
+    let x = env(pre);
+    let r = x.e.delete(0, KA);
+    kani::cover!(true, "delete returned");
+    match (pre, &r) {
+        (Pre::Absent, Ok(false)) => {
+            assert!(x.absent_now());
+            x.post(false);
+        }
+        (Pre::Absent, _) => assert!(false, "DEL of a missing key returns 0"),
+        (_, Ok(true)) => {
+            assert!(x.absent_now(), "DEL removes a key of any type");
+            assert!(peek_index(&x.e, 0, KA).is_none(), "DEL clears the expiry index");
+            x.post(true);
+        }
+        (_, _) => assert!(false, "DEL of an existing key returns 1"),
+    }
+    std::mem::forget(r);
+    x.done();
+}
+eng_harness!(c01_delete_absent, 5, { op_delete(Pre::Absent); });
+eng_harness!(c01_delete_str, 5, { op_delete(Pre::Str2); });
+eng_harness!(c01_delete_hash, 5, { op_delete(Pre::Hash1); });
+
+fn op_exists_type(pre: Pre) {
+    let x = env(pre);
+    let r = x.e.exists(0, KA);
+    assert!(matches!(r, Ok(b) if b == (pre != Pre::Absent)), "EXISTS");
+    let t = x.e.key_type(0, KA);
+    kani::cover!(true, "type returned");
+    let want: &[u8] = match pre {
+        Pre::Absent => b"none",
+        Pre::Str2 => b"string",
+        Pre::List1 => b"list",
+        Pre::Set1 => b"set",
+        Pre::Hash1 => b"hash",
+    };
+    match &t {
+        Ok(s) => assert!(bytes_eq(s.as_bytes(), want), "TYPE"),
+        Err(_) => assert!(false, "TYPE failed"),
+    }
+    assert!(x.unchanged());
+    x.post(false);
+    std::mem::forget(t);
+    x.done();
+}
+eng_harness!(c01_exists_type_absent, 8, { op_exists_type(Pre::Absent); });
+eng_harness!(c01_exists_type_str, 8, { op_exists_type(Pre::Str2); });
+eng_harness!(c01_exists_type_list, 8, { op_exists_type(Pre::List1); });
+eng_harness!(c01_exists_type_set, 8, { op_exists_type(Pre::Set1); });
+eng_harness!(c01_exists_type_hash, 8, { op_exists_type(Pre::Hash1); });
+
+fn op_get(pre: Pre) {
+    let x = env(pre);
+    let r = x.e.get_string(0, KA);
+    kani::cover!(true, "get returned");
+    match (pre, &r) {
+        (Pre::Absent, Ok(None)) => {}
+        (Pre::Str2, Ok(Some(b))) => assert!(b.len() == 2 && b[0] == x.c[0] && b[1] == x.c[1], "GET returns the stored bytes"),
+        (Pre::Absent, _) | (Pre::Str2, _) => assert!(false, "GET reply"),
+        (_, Err(er)) => assert!(is_wrongtype(er)),
+        (_, Ok(_)) => assert!(false, "GET accepted on a non-string key"),
+    }
+    assert!(x.unchanged(), "GET is read-only");
+    x.post(false);
+    std::mem::forget(r);
+    x.done();
+}
+eng_harness!(c01_get_absent, 5, { op_get(Pre::Absent); });
+eng_harness!(c01_get_str, 5, { op_get(Pre::Str2); });
+// (GET on a container value clones the whole container inside StorageEngine::get: out of memory in CBMC)
+
+/// INCRBY with the abstract integer codec: every current value x every increment (all i64).
+fn op_incrby_int() {
+    let e = mk_engine1();
+    let cur: i64 = kani::any();
+    let inc: i64 = kani::any();
+    put_raw(&e, 0, KA, value_integer_abs(cur), None);
+    let base = e.register_watch(0, KA).ok().unwrap();
+    let r = e.incr_by(0, KA.to_vec(), inc);
+    kani::cover!(matches!(r, Err(_)), "overflow refused");
+    kani::cover!(matches!(r, Ok(_)), "incremented");
+    match cur.checked_add(inc) {
+        Some(n) => {
+            assert!(matches!(r, Ok(m) if m == n), "INCRBY returns current + increment");
+            match peek_str(&e, 0, KA) {
+                Obs::Str(b) => assert!(b.as_i64_abs() == Some(n), "INCRBY stores the new value"),
+                _ => assert!(false),
+            }
+            assert!(e.was_modified_since(0, KA, base).ok().unwrap(), "C08: INCRBY must be reported to watchers");
+        }
+        None => {
+            assert!(r.is_err(), "INCRBY overflow must be refused");
+            match peek_str(&e, 0, KA) {
+                Obs::Str(b) => assert!(b.as_i64_abs() == Some(cur), "refused INCRBY changes nothing"),
+                _ => assert!(false),
+            }
+        }
+    }
+    std::mem::forget(r);
+    std::mem::forget(e);
+}
+eng_harness_intcodec!(c01_incrby_int, 10, { op_incrby_int(); });
+
+fn op_incrby_other(pre: Pre) {
+    let x = env(pre);
+    let inc: i64 = kani::any();
+    let r = x.e.incr_by(0, KA.to_vec(), inc);
+    kani::cover!(true, "incrby returned");
+    match (pre, &r) {
+        (Pre::Absent, Ok(n)) => {
+            assert!(*n == inc, "INCRBY on a missing key starts from 0");
+            match peek_str(&x.e, 0, KA) {
+                Obs::Str(b) => assert!(b.as_i64_abs() == Some(inc)),
+                _ => assert!(false),
+            }
+            x.post(true);
+        }
+        (Pre::Absent, Err(_)) => assert!(false, "INCRBY on a missing key refused"),
+        // a 2-byte string is not an integer under the abstract codec (8 bytes), a list is not a string
+        (_, Ok(_)) => assert!(false, "INCRBY accepted on a non-integer value"),
+        (_, Err(_)) => {
+            assert!(x.unchanged(), "refused INCRBY changed the dataset");
+            x.post(false);
+        }
+    }
+    std::mem::forget(r);
+    x.done();
+}
+eng_harness_intcodec!(c01_incrby_absent, 10, { op_incrby_other(Pre::Absent); });
+eng_harness_intcodec!(c01_incrby_nonint, 10, { op_incrby_other(Pre::Str2); });
+eng_harness_intcodec!(c01_incrby_list, 10, { op_incrby_other(Pre::List1); });
+
+/// RENAME a -> q (same shard) and a -> b (other shard): value and TTL travel, source disappears,
+/// destination is replaced; missing source is an error without effect.
+fn op_rename(pre: Pre, dst: &'static [u8], dst_exists: bool) {
+    let e = mk_engine1();
+    let c: [u8; 2] = kani::any();
+    let dl = mk_instant(T0_S + 100, 7);
+    if pre == Pre::Str2 {
+        put_raw(&e, 0, KA, Value::String(vec![c[0], c[1]]), Some(dl));
+    }
+    if dst_exists {
+        let mut l = VecDeque::new();
+        l.push_back(vec![c[1]]);
+        put_raw(&e, 0, dst, Value::List(l), None);
+    }
+    let base_a = e.register_watch(0, KA).ok().unwrap();
+    let base_d = e.register_watch(0, dst).ok().unwrap();
+    let r = e.rename(0, KA, dst.to_vec());
+    kani::cover!(true, "rename returned");
+    if pre == Pre::Str2 {
+        assert!(r.is_ok(), "RENAME of an existing key succeeds");
+        assert!(matches!(peek_str(&e, 0, KA), Obs::Absent), "RENAME removes the source");
+        match peek_str(&e, 0, dst) {
+            Obs::Str(b) => assert!(b.len() == 2 && b[0] == c[0] && b[1] == c[1], "RENAME moves the value"),
+            _ => assert!(false, "RENAME must replace the destination"),
+        }
+        assert!(matches!(peek_deadline(&e, 0, dst), Some(Some(t)) if t == dl), "C02: the TTL travels with the value on RENAME");
+        assert!(e.was_modified_since(0, dst, base_d).ok().unwrap(), "C08: RENAME must report the destination key as modified");
+        assert!(e.was_modified_since(0, KA, base_a).ok().unwrap(), "C08: RENAME must report the source key as modified");
+        // C02 index invariant: the index follows the value
+        assert!(peek_index(&e, 0, KA).is_none(), "C02: stale expiry-index entry left under the old name");
+        assert!(matches!(peek_index(&e, 0, dst), Some(t) if t == dl), "C02: expiry index not moved to the new name");
+    } else {
+        assert!(matches!(&r, Err(FerrousError::Command(CommandError::NoSuchKey))), "RENAME of a missing key is 'no such key'");
+        if dst_exists {
+            assert!(matches!(peek_str(&e, 0, dst), Obs::Other(1)), "refused RENAME changed the destination");
+        } else {
+            assert!(matches!(peek_str(&e, 0, dst), Obs::Absent));
+        }
+        assert!(!e.was_modified_since(0, dst, base_d).ok().unwrap(), "C08: refused RENAME reported a modification");
+    }
+    std::mem::forget(r);
+    std::mem::forget(e);
+}
+eng_harness!(c01_rename_same_shard, 5, { op_rename(Pre::Str2, KQ, false); });
+eng_harness!(c01_rename_over_existing, 5, { op_rename(Pre::Str2, KQ, true); });
+eng_harness!(c01_rename_missing, 5, { op_rename(Pre::Absent, KQ, true); });
+// (cross-shard RENAME orders its two locks by comparing shard addresses; CBMC runs out of memory
+//  on that harness with and without field sensitivity - outside the claim)
+
+// ---------------------------------------------------------------- C02 expiration (symbolic clock)
+/// deadline D = T0 + (ds, dns), clock t = T0 + (ts, tns), all symbolic; returns (deadline, t>D, t<D)
+fn sym_deadline_and_clock() -> (Instant, bool, bool) {
+    let ds: u16 = kani::any();
+    let dns: u32 = kani::any();
+    let ts: u16 = kani::any();
+    let tns: u32 = kani::any();
+    kani::assume(dns < 1_000_000_000 && tns < 1_000_000_000);
+    let d = mk_instant(T0_S + ds as i64, dns);
+    set_clock(T0_S + ts as i64, tns);
+    let after = (ts as i64, tns) > (ds as i64, dns);
+    let before = (ts as i64, tns) < (ds as i64, dns);
+    (d, after, before)
+}
+
+fn c02_read(op: u8) {
+    let e = mk_engine1();
+    let c: [u8; 2] = kani::any();
+    let (d, after, before) = sym_deadline_and_clock();
+    put_raw(&e, 0, KA, Value::String(vec![c[0], c[1]]), Some(d));
+    kani::cover!(after, "clock past the deadline");
+    kani::cover!(before, "clock before the deadline");
+    match op {
+        0 => {
+            let r = e.get_string(0, KA);
+            if after {
+                assert!(matches!(&r, Ok(None)), "GET after the deadline must see no key");
+                assert!(matches!(peek_str(&e, 0, KA), Obs::Absent), "lazily expired key is removed");
+            }
+            if before {
+                assert!(matches!(&r, Ok(Some(b)) if b.len() == 2 && b[0] == c[0] && b[1] == c[1]), "GET before the deadline returns the intact value");
+                assert!(matches!(peek_deadline(&e, 0, KA), Some(Some(t)) if t == d), "reading does not change the TTL");
+            }
+            std::mem::forget(r);
+        }
+        1 => {
+            let r = e.exists(0, KA);
+            if after {
+                assert!(matches!(r, Ok(false)), "EXISTS after the deadline");
+            }
+            if before {
+                assert!(matches!(r, Ok(true)), "EXISTS before the deadline");
+            }
+        }
+        _ => {
+            let v: u8 = kani::any();
+            let r = e.set_string_nx(0, KA.to_vec(), vec![v]);
+            if after {
+                assert!(matches!(r, Ok(true)), "SETNX after the deadline sees no key and sets");
+                assert!(matches!(peek_str(&e, 0, KA), Obs::Str(b) if b.len() == 1 && b[0] == v));
+                assert!(matches!(peek_deadline(&e, 0, KA), Some(None)), "the new value has no TTL");
+            }
+            if before {
+                assert!(matches!(r, Ok(false)), "SETNX before the deadline sees the key");
+                match peek_str(&e, 0, KA) {
+                    Obs::Str(b) => {
+                        assert!(b.len() == 2, "SETNX before the deadline: value length intact");
+                        assert!(b[0] == c[0] && b[1] == c[1], "SETNX before the deadline: value bytes intact");
+                    }
+                    _ => assert!(false, "SETNX before the deadline: key still a string"),
+                }
+            }
+        }
+    }
+    std::mem::forget(e);
+}
+eng_harness!(c02_get_deadline, 5, { c02_read(0); });
+eng_harness!(c02_exists_deadline, 5, { c02_read(1); });
+eng_harness!(c02_setnx_deadline, 5, { c02_read(2); });
+
+/// SET over a key with a TTL removes the TTL (value metadata).
+eng_harness!(c02_set_clears_ttl, 5, {
+    let e = mk_engine1();
+    let c: [u8; 2] = kani::any();
+    let d = mk_instant(T0_S + 50, 0);
+    put_raw(&e, 0, KA, Value::String(vec![c[0]]), Some(d));
+    let r = e.set_string(0, KA.to_vec(), vec![c[1]]);
+    kani::cover!(true, "set returned");
+    assert!(r.is_ok());
+    assert!(matches!(peek_deadline(&e, 0, KA), Some(None)), "overwriting with SET removes the TTL");
+    std::mem::forget(e);
+});
+
+/// EXPIRE / PERSIST / TTL on a live key.
+eng_harness!(c02_expire_persist_ttl, 5, {
+    let e = mk_engine1();
+    let c: [u8; 2] = kani::any();
+    put_raw(&e, 0, KA, Value::String(vec![c[0], c[1]]), None);
+    let secs: u32 = kani::any();
+    let nanos: u32 = kani::any();
+    kani::assume(nanos < 1_000_000_000);
+    let dur = Duration::new(secs as u64, nanos);
+    let base = e.register_watch(0, KA).ok().unwrap();
+    // no TTL yet
+    assert!(matches!(e.ttl(0, KA), Ok(None)));
+    assert!(matches!(e.pttl(0, KA), Ok(-1)), "PTTL -1 for a key without TTL");
+    assert!(matches!(e.pttl(0, KB), Ok(-2)), "PTTL -2 for a missing key");
+    let r = e.expire(0, KA, dur);
+    kani::cover!(true, "expire returned");
+    assert!(matches!(r, Ok(true)), "EXPIRE on an existing key");
+    let want = mk_instant(T0_S + secs as i64, nanos);
+    assert!(matches!(peek_deadline(&e, 0, KA), Some(Some(t)) if t == want), "deadline = now + ttl");
+    assert!(matches!(peek_str(&e, 0, KA), Obs::Str(b) if b.len() == 2 && b[0] == c[0] && b[1] == c[1]), "EXPIRE keeps the value");
+    assert!(e.was_modified_since(0, KA, base).ok().unwrap(), "C08: EXPIRE on a watched key must be reported");
+    assert!(matches!(e.ttl(0, KA), Ok(Some(x)) if x == dur), "TTL reports the remaining time");
+    assert!(matches!(e.expire(0, KB, dur), Ok(false)), "EXPIRE on a missing key");
+    // PERSIST
+    let base2 = e.register_watch(0, KA).ok().unwrap();
+    let p = e.persist(0, KA);
+    assert!(matches!(p, Ok(true)), "PERSIST removes an existing TTL");
+    assert!(matches!(peek_deadline(&e, 0, KA), Some(None)));
+    assert!(peek_index(&e, 0, KA).is_none(), "PERSIST clears the expiry index");
+    assert!(e.was_modified_since(0, KA, base2).ok().unwrap(), "C08: PERSIST on a watched key must be reported");
+    assert!(matches!(e.persist(0, KA), Ok(false)), "PERSIST without TTL returns 0");
+    std::mem::forget(e);
+});
+
+/// Representative operations that must treat a key past its deadline as absent.
+fn c02_expired_op(op: u8) {
+    let e = mk_engine1();
+    let c: [u8; 2] = kani::any();
+    let (d, after, _before) = sym_deadline_and_clock();
+    kani::assume(after);
+    put_raw(&e, 0, KA, Value::String(vec![c[0], c[1]]), Some(d));
+    kani::cover!(true, "expired pre-state");
+    match op {
+        0 => assert!(matches!(e.strlen(0, KA), Ok(0)), "STRLEN of a key past its deadline must be 0"),
+        1 => assert!(matches!(e.delete(0, KA), Ok(false)), "DEL of a key past its deadline must return 0"),
+        2 => {
+            let r = e.key_type(0, KA);
+            assert!(matches!(&r, Ok(s) if bytes_eq(s.as_bytes(), b"none")), "TYPE of a key past its deadline must be none");
+            std::mem::forget(r);
+        }
+        3 => assert!(matches!(e.pttl(0, KA), Ok(-2)), "PTTL of a key past its deadline must be -2"),
+        4 => {
+            let r = e.append(0, KA.to_vec(), vec![c[1]]);
+            assert!(matches!(r, Ok(1)), "APPEND to a key past its deadline must start from an empty value");
+        }
+        _ => {
+            let r = e.expire(0, KA, Duration::new(10, 0));
+            assert!(matches!(r, Ok(false)), "EXPIRE on a key past its deadline must return 0");
+        }
+    }
+    std::mem::forget(e);
+}
+eng_harness!(c02_expired_strlen_kf, 5, { c02_expired_op(0); });
+eng_harness!(c02_expired_delete_kf, 5, { c02_expired_op(1); });
+eng_harness!(c02_expired_type_kf, 8, { c02_expired_op(2); });
+eng_harness!(c02_expired_pttl_kf, 5, { c02_expired_op(3); });
+eng_harness!(c02_expired_append_kf, 5, { c02_expired_op(4); });
+eng_harness!(c02_expired_expire_kf, 5, { c02_expired_op(5); });
+
+// ---------------------------------------------------------------- C06: deadline arithmetic
+eng_harness!(c06_expire_any_duration, 5, {
+    let e = mk_engine1();
+    put_raw(&e, 0, KA, Value::String(vec![1]), None);
+    let secs: u64 = kani::any();
+    let nanos: u32 = kani::any();
+    kani::assume(nanos < 1_000_000_000);
+    let r = e.expire(0, KA, Duration::new(secs, nanos));
+    kani::cover!(r.is_ok(), "expire accepted");
+    // whatever the duration: no panic; if accepted the key has a deadline
+    if let Ok(true) = r {
+        assert!(matches!(peek_deadline(&e, 0, KA), Some(Some(_))));
+    }
+    std::mem::forget(e);
+});
+eng_harness!(c06_setex_any_duration, 5, {
+    let e = mk_engine1();
+    let secs: u64 = kani::any();
+    let nanos: u32 = kani::any();
+    kani::assume(nanos < 1_000_000_000);
+    let r = e.set_string_ex(0, KA.to_vec(), vec![1], Duration::new(secs, nanos));
+    kani::cover!(r.is_ok(), "set ex accepted");
+    std::mem::forget(r);
+    std::mem::forget(e);
+});
+
+// ---------------------------------------------------------------- C02: the sweeper's removal step
+// One pass of expiration_cleanup_loop itself does not fit (a Vec filled by a symbolic number of
+// pushes); its per-key step `DatabaseShard::remove_if_expired` is decided here on a shard built
+// on the stack, and Engine M decides on the MIR that the sweeper removes keys ONLY through it.
+fn sweeper_step(has_deadline: bool, has_index: bool) {
+    let c: u8 = kani::any();
+    let (ds, dn): (u16, u32) = (kani::any(), kani::any());
+    let (is_, in_): (u16, u32) = (kani::any(), kani::any());
+    let (ts, tn): (u16, u32) = (kani::any(), kani::any());
+    kani::assume(dn < 1_000_000_000 && in_ < 1_000_000_000 && tn < 1_000_000_000);
+    let d = mk_instant(T0_S + ds as i64, dn);
+    let ix = mk_instant(T0_S + is_ as i64, in_);
+    let now = mk_instant(T0_S + ts as i64, tn);
+    let mut sh = DatabaseShard { data: HashMap::new(), expiring_keys: HashMap::new(), watch_tracker: ShardWatchTracker::new() };
+    sh.data.insert(KA.to_vec(), StoredValue { value: Value::String(vec![c]), metadata: meta(if has_deadline { Some(d) } else { None }) });
+    if has_index {
+        sh.expiring_keys.insert(KA.to_vec(), ix);
+    }
+    let base = sh.watch_tracker.register_watch(KA);
+    let r = sh.remove_if_expired(KA, now);
+    let passed = has_deadline && (ds as i64, dn) <= (ts as i64, tn);
+    kani::cover!(passed || !has_deadline, "deadline passed (or no deadline at all)");
+    kani::cover!(!passed, "no deadline or deadline in the future");
+    if passed {
+        assert!(r.is_some(), "a key whose stored deadline has passed is removed");
+        assert!(sh.data.get(KA).is_none());
+        assert!(sh.expiring_keys.get(KA).is_none());
+        assert!(sh.watch_tracker.get_key_counter(KA) > base, "C08: expiry by the sweeper is reported to watchers");
+    } else {
+        assert!(r.is_none(), "the sweeper must never delete a key that has no TTL or whose deadline has not passed (stale index entries included)");
+        assert!(matches!(sh.data.get(KA), Some(sv) if matches!(&sv.value, Value::String(b) if b.len() == 1 && b[0] == c)), "value intact");
+        // the index is brought back in step with the value
+        match (has_deadline, sh.expiring_keys.get(KA)) {
+            (true, Some(t)) => assert!(*t == d, "index corrected to the stored deadline"),
+            (false, None) => {}
+            _ => assert!(false, "index out of step with the value after the sweeper step"),
+        }
+        assert!(sh.watch_tracker.get_key_counter(KA) == base, "C08: no modification reported for a key the sweeper left alone");
+    }
+    std::mem::forget(r);
+    std::mem::forget(sh);
+}
+eng_harness!(c02_sweepstep_nottl_staleidx, 5, { sweeper_step(false, true); });
+eng_harness!(c02_sweepstep_ttl_idx, 5, { sweeper_step(true, true); });
+eng_harness!(c02_sweepstep_ttl_noidx, 5, { sweeper_step(true, false); });
+
+// ---------------------------------------------------------------- C08 / C18: FLUSHDB
+eng_harness!(c08_flushdb_watch, 5, {
+    let e = mk_engine2();
+    let c: u8 = kani::any();
+    put_raw(&e, 0, KA, Value::String(vec![c]), Some(mk_instant(T0_S + 9, 0)));
+    put_raw(&e, 1, KA, Value::String(vec![SENTINEL]), None);
+    let base = e.register_watch(0, KA).ok().unwrap();
+    let base_other_db = e.register_watch(1, KA).ok().unwrap();
+    let r = e.flush_db(0);
+    kani::cover!(true, "flush returned");
+    assert!(r.is_ok());
+    assert!(matches!(peek_str(&e, 0, KA), Obs::Absent), "FLUSHDB empties the selected database");
+    assert!(peek_index(&e, 0, KA).is_none(), "FLUSHDB clears the expiry index");
+    assert!(e.was_modified_since(0, KA, base).ok().unwrap(), "C08: FLUSHDB must be reported to watchers of a flushed key");
+    assert!(matches!(peek_str(&e, 1, KA), Obs::Str(b) if b.len() == 1 && b[0] == SENTINEL), "C18: FLUSHDB emptied another database");
+    assert!(!e.was_modified_since(1, KA, base_other_db).ok().unwrap(), "C08/C18: FLUSHDB of db 0 reported a key of db 1 as modified");
+    std::mem::forget(e);
+});
+
+// ---------------------------------------------------------------- C03 lists
+/// engine with key 'a' holding a list of N one-byte symbolic elements (N concrete)
+fn list_env<const N: usize>() -> (StorageEngine, [u8; N], u64) {
+    let e = mk_engine1();
+    let c: [u8; N] = kani::any();
+    if N > 0 {
+        let mut l = VecDeque::new();
+        let mut i = 0;
+        while i < N {
+            l.push_back(vec![c[i]]);
+            i += 1;
+        }
+        put_raw(&e, 0, KA, Value::List(l), None);
+    }
+    let base = e.register_watch(0, KA).ok().unwrap();
+    (e, c, base)
+}
+/// in-place comparison of the list under 'a' with `want[..n]` (one-byte elements); n == 0 means the key must not exist
+fn list_is(e: &StorageEngine, want: &[u8], n: usize) -> bool {
+    let shard = e.get_shard(0, KA).ok().unwrap();
+    let g = shard.read().unwrap();
+    match g.data.get(KA) {
+        None => n == 0,
+        Some(sv) => match &sv.value {
+            Value::List(l) => {
+                if n == 0 || l.len() != n {
+                    return false;
+                }
+                let mut i = 0;
+                while i < n {
+                    if l[i].len() != 1 || l[i][0] != want[i] {
+                        return false;
+                    }
+                    i += 1;
+                }
+                true
+            }
+            _ => false,
+        },
+    }
+}
+/// Redis index normalisation for LINDEX/LSET
+fn norm_index(len: usize, index: isize) -> Option<usize> {
+    let l = len as i128;
+    let mut i = index as i128;
+    if i < 0 {
+        i += l;
+    }
+    if i >= 0 && i < l {
+        Some(i as usize)
+    } else {
+        None
+    }
+}
+/// Redis LRANGE/LTRIM normalisation: None = empty range
+fn norm_range(len: usize, start: isize, stop: isize) -> Option<(usize, usize)> {
+    let l = len as i128;
+    let mut s = start as i128;
+    let mut e = stop as i128;
+    if s < 0 {
+        s += l;
+    }
+    if e < 0 {
+        e += l;
+    }
+    if s < 0 {
+        s = 0;
+    }
+    if s > e || s >= l {
+        return None;
+    }
+    if e >= l {
+        e = l - 1;
+    }
+    Some((s as usize, e as usize))
+}
+
+fn op_lindex_lset<const N: usize>() {
+    let (e, c, base) = list_env::<N>();
+    let index: isize = kani::any();
+    let r = e.lindex(0, KA, index);
+    kani::cover!(matches!(&r, Ok(Some(_))), "element found");
+    match (norm_index(N, index), &r) {
+        (Some(i), Ok(Some(b))) => assert!(b.len() == 1 && b[0] == c[i], "LINDEX returns the element at the normalised index"),
+        (None, Ok(None)) => {}
+        _ => assert!(false, "LINDEX reply differs from the Redis model"),
+    }
+    assert!(list_is(&e, &c, N), "LINDEX is read-only");
+    let v: u8 = kani::any();
+    let w = e.lset(0, KA.to_vec(), index, vec![v]);
+    match (norm_index(N, index), &w) {
+        (Some(i), Ok(())) => {
+            let mut want = c;
+            want[i] = v;
+            assert!(list_is(&e, &want, N), "LSET replaces exactly the addressed element");
+            assert!(e.was_modified_since(0, KA, base).ok().unwrap(), "C08: LSET must be reported");
+        }
+        (None, Err(_)) => {
+            assert!(list_is(&e, &c, N), "refused LSET changes nothing");
+            assert!(!e.was_modified_since(0, KA, base).ok().unwrap());
+        }
+        _ => assert!(false, "LSET outcome differs from the Redis model"),
+    }
+    std::mem::forget(r);
+    std::mem::forget(w);
+    std::mem::forget(e);
+}
+eng_harness!(c03_lindex_lset_n3, 6, { op_lindex_lset::<3>(); });
+eng_harness!(c03_lindex_lset_n1, 6, { op_lindex_lset::<1>(); });
+
+fn op_lrange<const N: usize>() {
+    let (e, c, _base) = list_env::<N>();
+    let start: isize = kani::any();
+    let stop: isize = kani::any();
+    let r = std::mem::ManuallyDrop::new(e.lrange(0, KA, start, stop));
+    kani::cover!(matches!(&*r, Ok(v) if v.len() == N), "whole list returned");
+    match (&*r, norm_range(N, start, stop)) {
+        (Ok(v), None) => assert!(v.is_empty(), "LRANGE must be empty here (start > stop or out of range after normalisation)"),
+        (Ok(v), Some((s, t))) => {
+            assert!(v.len() == t - s + 1, "LRANGE returns stop-start+1 elements");
+            let mut i = 0;
+            while i < v.len() {
+                assert!(v[i].len() == 1 && v[i][0] == c[s + i], "LRANGE returns the elements in list order");
+                i += 1;
+            }
+        }
+        (Err(_), _) => assert!(false, "LRANGE on a list failed"),
+    }
+    assert!(list_is(&e, &c, N), "LRANGE is read-only");
+    std::mem::forget(e);
+}
+eng_harness_vec!(c03_lrange_n3, 6, { op_lrange::<3>(); });
+eng_harness_vec!(c03_lrange_n2, 6, { op_lrange::<2>(); });
+
+fn op_ltrim<const N: usize>() {
+    let (e, c, base) = list_env::<N>();
+    let start: isize = kani::any();
+    let stop: isize = kani::any();
+    let r = e.ltrim(0, KA.to_vec(), start, stop);
+    kani::cover!(true, "ltrim returned");
+    assert!(r.is_ok(), "LTRIM on a list succeeds");
+    match norm_range(N, start, stop) {
+        None => {
+            assert!(list_is(&e, &c, 0), "LTRIM to an empty range removes the key");
+            assert!(e.was_modified_since(0, KA, base).ok().unwrap(), "C08: LTRIM that empties the list must be reported");
+        }
+        Some((s, t)) => {
+            let mut want = [0u8; N];
+            let mut i = 0;
+            while i < t - s + 1 {
+                want[i] = c[s + i];
+                i += 1;
+            }
+            assert!(list_is(&e, &want, t - s + 1), "LTRIM keeps exactly the elements of the range, in order");
+            if t - s + 1 != N {
+                assert!(e.was_modified_since(0, KA, base).ok().unwrap(), "C08: LTRIM that removes elements must be reported");
+            }
+        }
+    }
+    std::mem::forget(e);
+}
+eng_harness_vec!(c03_ltrim_n3, 6, { op_ltrim::<3>(); });
+
+fn op_push_pop<const N: usize>(which: u8) {
+    let (e, c, base) = list_env::<N>();
+    let v: [u8; 2] = kani::any();
+    let mut want = [0u8; 5];
+    match which {
+        0 => {
+            // LPUSH a x y  => y x c...
+            let r = e.lpush(0, KA.to_vec(), vec![vec![v[0]], vec![v[1]]]);
+            assert!(matches!(r, Ok(n) if n == N + 2), "LPUSH returns the new length");
+            want[0] = v[1];
+            want[1] = v[0];
+            let mut i = 0;
+            while i < N {
+                want[2 + i] = c[i];
+                i += 1;
+            }
+            assert!(list_is(&e, &want, N + 2), "LPUSH prepends the elements one after another");
+            assert!(e.was_modified_since(0, KA, base).ok().unwrap(), "C08: LPUSH must be reported");
+        }
+        1 => {
+            let r = e.rpush(0, KA.to_vec(), vec![vec![v[0]], vec![v[1]]]);
+            assert!(matches!(r, Ok(n) if n == N + 2), "RPUSH returns the new length");
+            let mut i = 0;
+            while i < N {
+                want[i] = c[i];
+                i += 1;
+            }
+            want[N] = v[0];
+            want[N + 1] = v[1];
+            assert!(list_is(&e, &want, N + 2), "RPUSH appends in order");
+            assert!(e.was_modified_since(0, KA, base).ok().unwrap(), "C08: RPUSH must be reported");
+        }
+        2 => {
+            let r = e.lpop(0, KA);
+            if N == 0 {
+                assert!(matches!(&r, Ok(None)), "LPOP on a missing key is nil");
+            } else {
+                assert!(matches!(&r, Ok(Some(b)) if b.len() == 1 && b[0] == c[0]), "LPOP returns the head");
+                let mut i = 1;
+                while i < N {
+                    want[i - 1] = c[i];
+                    i += 1;
+                }
+                assert!(list_is(&e, &want, N - 1), "LPOP removes the head; an emptied list ceases to exist");
+                assert!(e.was_modified_since(0, KA, base).ok().unwrap(), "C08: LPOP must be reported");
+            }
+            std::mem::forget(r);
+        }
+        _ => {
+            let r = e.rpop(0, KA);
+            if N == 0 {
+                assert!(matches!(&r, Ok(None)), "RPOP on a missing key is nil");
+            } else {
+                assert!(matches!(&r, Ok(Some(b)) if b.len() == 1 && b[0] == c[N - 1]), "RPOP returns the tail");
+                let mut i = 0;
+                while i + 1 < N {
+                    want[i] = c[i];
+                    i += 1;
+                }
+                assert!(list_is(&e, &want, N - 1), "RPOP removes the tail; an emptied list ceases to exist");
+                assert!(e.was_modified_since(0, KA, base).ok().unwrap(), "C08: RPOP must be reported");
+            }
+            std::mem::forget(r);
+        }
+    }
+    kani::cover!(true, "operation returned");
+    std::mem::forget(e);
+}
+eng_harness_vec!(c03_lpush_n0, 6, { op_push_pop::<0>(0); });
+eng_harness_vec!(c03_lpush_n2, 6, { op_push_pop::<2>(0); });
+eng_harness_vec!(c03_rpush_n0, 6, { op_push_pop::<0>(1); });
+eng_harness_vec!(c03_rpush_n2, 6, { op_push_pop::<2>(1); });
+eng_harness_vec!(c03_lpop_n0, 6, { op_push_pop::<0>(2); });
+eng_harness_vec!(c03_lpop_n1, 6, { op_push_pop::<1>(2); });
+eng_harness_vec!(c03_lpop_n2, 6, { op_push_pop::<2>(2); });
+eng_harness_vec!(c03_rpop_n1, 6, { op_push_pop::<1>(3); });
+eng_harness_vec!(c03_rpop_n2, 6, { op_push_pop::<2>(3); });
+
+/// LREM count elem on a 3-element list with symbolic (hence possibly duplicate) contents.
+fn op_lrem() {
+    let (e, c, base) = list_env::<3>();
+    let count: isize = kani::any();
+    let x: u8 = kani::any();
+    let r = e.lrem(0, KA.to_vec(), count, vec![x]);
+    // model
+    let mut keep = [true; 3];
+    let mut removed = 0usize;
+    let limit: u128 = if count == 0 { 3 } else { count.unsigned_abs() as u128 };
+    if count >= 0 {
+        let mut i = 0;
+        while i < 3 {
+            if c[i] == x && (removed as u128) < limit {
+                keep[i] = false;
+                removed += 1;
+            }
+            i += 1;
+        }
+    } else {
+        let mut i = 3;
+        while i > 0 {
+            i -= 1;
+            if c[i] == x && (removed as u128) < limit {
+                keep[i] = false;
+                removed += 1;
+            }
+        }
+    }
+    let mut want = [0u8; 3];
+    let mut n = 0;
+    let mut i = 0;
+    while i < 3 {
+        if keep[i] {
+            want[n] = c[i];
+            n += 1;
+        }
+        i += 1;
+    }
+    kani::cover!(removed == 2, "two duplicates removed");
+    assert!(matches!(r, Ok(k) if k == removed), "LREM returns the number of removed elements");
+    assert!(list_is(&e, &want, n), "LREM removes the first/last |count| occurrences and keeps the order of the rest");
+    if removed > 0 {
+        assert!(e.was_modified_since(0, KA, base).ok().unwrap(), "C08: LREM that removed something must be reported");
+    } else {
+        assert!(!e.was_modified_since(0, KA, base).ok().unwrap(), "C08: LREM that removed nothing reported a modification");
+    }
+    std::mem::forget(e);
+}
+eng_harness_vec!(c03_lrem_n3, 6, { op_lrem(); });
+
+// ---------------------------------------------------------------- C03 sets and hashes
+fn set_is(e: &StorageEngine, want: &[u8], n: usize) -> bool {
+    let shard = e.get_shard(0, KA).ok().unwrap();
+    let g = shard.read().unwrap();
+    match g.data.get(KA) {
+        None => n == 0,
+        Some(sv) => match &sv.value {
+            Value::Set(h) => {
+                if n == 0 || h.len() != n {
+                    return false;
+                }
+                let mut i = 0;
+                while i < n {
+                    if !h.contains(&vec![want[i]]) {
+                        return false;
+                    }
+                    i += 1;
+                }
+                true
+            }
+            _ => false,
+        },
+    }
+}
+/// SADD / SREM / SISMEMBER / SCARD on a set {a0, a1} (distinct symbolic members)
+fn op_set_basic(which: bool) {
+    let e = mk_engine1();
+    let c: [u8; 2] = kani::any();
+    kani::assume(c[0] != c[1]);
+    let mut h = HashSet::new();
+    h.insert(vec![c[0]]);
+    h.insert(vec![c[1]]);
+    put_raw(&e, 0, KA, Value::Set(h), None);
+    let base = e.register_watch(0, KA).ok().unwrap();
+    let x: u8 = kani::any();
+    let member = x == c[0] || x == c[1];
+    assert!(matches!(e.sismember(0, KA, &[x]), Ok(b) if b == member), "SISMEMBER");
+    assert!(matches!(e.scard(0, KA), Ok(2)), "SCARD");
+    if which {
+        let r = e.sadd(0, KA.to_vec(), vec![vec![x], vec![x]]);
+        assert!(matches!(r, Ok(n) if n == if member { 0 } else { 1 }), "SADD counts each new member once");
+        if member {
+            assert!(set_is(&e, &c, 2), "SADD of an existing member changes nothing");
+            assert!(!e.was_modified_since(0, KA, base).ok().unwrap(), "C08: SADD that added nothing reported a modification");
+        } else {
+            assert!(set_is(&e, &[c[0], c[1], x], 3), "SADD adds the member");
+            assert!(e.was_modified_since(0, KA, base).ok().unwrap(), "C08: SADD must be reported");
+        }
+    } else {
+        let r = e.srem(0, KA, &[vec![x]]);
+        assert!(matches!(r, Ok(n) if n == if member { 1 } else { 0 }), "SREM count");
+        if member {
+            let other = if x == c[0] { c[1] } else { c[0] };
+            assert!(set_is(&e, &[other], 1), "SREM removes exactly the member");
+            assert!(e.was_modified_since(0, KA, base).ok().unwrap(), "C08: SREM must be reported");
+        } else {
+            assert!(set_is(&e, &c, 2));
+        }
+    }
+    kani::cover!(!member, "x is not a member");
+    std::mem::forget(e);
+}
+eng_harness_vec!(c03_set_sadd, 6, { op_set_basic(true); });
+eng_harness_vec!(c03_set_srem, 6, { op_set_basic(false); });
+
+/// SREM of the last member removes the key.
+eng_harness!(c03_srem_last, 6, {
+    let x = env(Pre::Set1);
+    let r = x.e.srem(0, KA, &[vec![x.c[0]]]);
+    kani::cover!(true, "srem returned");
+    assert!(matches!(r, Ok(1)));
+    assert!(x.absent_now(), "a set that becomes empty ceases to exist as a key");
+    x.post(true);
+    x.done();
+});
+
+fn hash_is(e: &StorageEngine, f: &[u8], v: &[u8], n: usize) -> bool {
+    let shard = e.get_shard(0, KA).ok().unwrap();
+    let g = shard.read().unwrap();
+    match g.data.get(KA) {
+        None => n == 0,
+        Some(sv) => match &sv.value {
+            Value::Hash(h) => {
+                if n == 0 || h.len() != n {
+                    return false;
+                }
+                let mut i = 0;
+                while i < n {
+                    match h.get(&vec![f[i]]) {
+                        Some(b) if b.len() == 1 && b[0] == v[i] => {}
+                        _ => return false,
+                    }
+                    i += 1;
+                }
+                true
+            }
+            _ => false,
+        },
+    }
+}
+/// HSET / HGET / HDEL / HLEN / HEXISTS on a hash {f0: v0}
+fn op_hash_basic(which: bool) {
+    let x = env(Pre::Hash1);
+    let f: u8 = kani::any();
+    let v: u8 = kani::any();
+    let same = f == x.c[0];
+    let g = x.e.hget(0, KA, &[f]);
+    match (&g, same) {
+        (Ok(Some(b)), true) => assert!(b.len() == 1 && b[0] == x.c[1], "HGET returns the stored value"),
+        (Ok(None), false) => {}
+        _ => assert!(false, "HGET reply"),
+    }
+    assert!(matches!(x.e.hexists(0, KA, &[f]), Ok(b) if b == same), "HEXISTS");
+    assert!(matches!(x.e.hlen(0, KA), Ok(1)), "HLEN");
+    if which {
+        let r = x.e.hset(0, KA.to_vec(), vec![(vec![f], vec![v])]);
+        assert!(matches!(r, Ok(n) if n == if same { 0 } else { 1 }), "HSET returns the number of NEW fields");
+        if same {
+            assert!(hash_is(&x.e, &[f], &[v], 1), "HSET overwrites an existing field");
+        } else {
+            assert!(hash_is(&x.e, &[x.c[0], f], &[x.c[1], v], 2), "HSET adds the field");
+        }
+        x.post(true);
+    } else {
+        let r = x.e.hdel(0, KA.to_vec(), &[vec![f]]);
+        assert!(matches!(r, Ok(n) if n == if same { 1 } else { 0 }), "HDEL count");
+        if same {
+            assert!(x.absent_now(), "a hash that becomes empty ceases to exist as a key");
+            x.post(true);
+        } else {
+            assert!(x.unchanged(), "HDEL of a missing field changes nothing");
+        }
+    }
+    kani::cover!(!same, "another field");
+    std::mem::forget(g);
+    x.done();
+}
+eng_harness_vec!(c03_hash_hset, 6, { op_hash_basic(true); });
+eng_harness_vec!(c03_hash_hdel, 6, { op_hash_basic(false); });
+
+/// list / set / hash write commands against a key of another type: WRONGTYPE, nothing changes
+fn op_wrongtype(which: u8) {
+    let x = env(Pre::Str2);
+    let v: u8 = kani::any();
+    let refused = match which {
+        0 => matches!(&x.e.lpush(0, KA.to_vec(), vec![vec![v]]), Err(er) if is_wrongtype(er)),
+        1 => matches!(&x.e.sadd(0, KA.to_vec(), vec![vec![v]]), Err(er) if is_wrongtype(er)),
+        2 => matches!(&x.e.hset(0, KA.to_vec(), vec![(vec![v], vec![v])]), Err(er) if is_wrongtype(er)),
+        3 => matches!(&x.e.lpop(0, KA), Err(er) if is_wrongtype(er)),
+        4 => matches!(&x.e.lrange(0, KA, 0, -1), Err(er) if is_wrongtype(er)),
+        _ => matches!(&x.e.hdel(0, KA.to_vec(), &[vec![v]]), Err(er) if is_wrongtype(er)),
+    };
+    kani::cover!(true, "returned");
+    assert!(refused, "a list/set/hash command on a string key must be refused with WRONGTYPE");
+    assert!(x.unchanged(), "a refused command changes nothing");
+    x.post(false);
+    x.done();
+}
+eng_harness!(c03_wrongtype_lpush, 6, { op_wrongtype(0); });
+eng_harness!(c03_wrongtype_sadd, 6, { op_wrongtype(1); });
+eng_harness!(c03_wrongtype_hset, 6, { op_wrongtype(2); });
+eng_harness!(c03_wrongtype_lpop, 6, { op_wrongtype(3); });
+eng_harness!(c03_wrongtype_lrange, 6, { op_wrongtype(4); });
+eng_harness!(c03_wrongtype_hdel, 6, { op_wrongtype(5); });
